@@ -32,20 +32,21 @@ Solved == phase = "solved"
 
 StableModel ==
     Solved => \A p \in 1..(NN - 1) :
-                 /\ RPos(sol[p].P)
-                 /\ \A i \in 1..p : RLt(CAbs2(sol[p].ref[i]), One)
+                 \/ IsOvf(sol[p].P) \/ CSeqBad(sol[p].ref)          \* (arithmetic overflow: state not decided)
+                 \/ /\ RPos(sol[p].P)
+                    /\ \A i \in 1..p : LET m == CAbs2(sol[p].ref[i]) IN IsOvf(m) \/ RLt(m, One)
 
 \* the model's autocorrelation equals the sample autocorrelation on lags 0..p
 MatchesAutocorrelation ==
     Solved => \A p \in 1..(NN - 1) :
-                 AcOfRc(sol[p].ref, out.biased[1][1]) = SubSeq(out.biased, 1, p + 1)
+                 CSeqEqOrOvf(AcOfRc(sol[p].ref, out.biased[1][1]), SubSeq(out.biased, 1, p + 1))
 
 \* normal equations of the least-squares problem on the 'autocorrelation' data matrix:
 \*   sum_j Gram(i, j) a_j + Gram(i, 0) = 0   for i = 1..p
 LeastSquares ==
     Solved => \A p \in 1..(NN - 1) : \A i \in 1..p :
-                 CIsZero(CAdd(Gram(p, i, 0),
-                              CSumSeq([j \in 1..p |-> CMul(Gram(p, i, j), sol[p].A[j])])))
+                 LET v == CAdd(Gram(p, i, 0), CSumSeq([j \in 1..p |-> CMul(Gram(p, i, j), sol[p].A[j])]))
+                 IN  CBad(v) \/ CIsZero(v)
 
 \* C03 on the kernels: scaling the data by c multiplies every correlation sum by |c|^2,
 \* leaves the Yule-Walker coefficients unchanged and multiplies the variance by |c|^2
@@ -55,14 +56,14 @@ RawOf(u, k) == CSumSeq([n \in 1..(Len(u) - k) |-> CMul(u[n + k], CConj(u[n]))])
 ScalingTheoremCorrelation ==
     (phase \in {"done", "solved"} /\ Auto) =>
         \A c \in (IF Complex THEN ScaleSet ELSE {CInt(2), CInt(-1)}) : \A k \in 0..(NN - 1) :
-            RawOf(ScaledX(c), k) = CScale(CAbs2(c), RawOf(x, k))
+            CEqOrOvf(RawOf(ScaledX(c), k), CScale(CAbs2(c), RawOf(x, k)))
 ScalingTheoremYuleWalker ==
     Solved => \A c \in (IF Complex THEN ScaleSet ELSE {CInt(2), CInt(-1)}) : \A p \in 1..(NN - 1) :
         LET rs == [k \in 1..NN |-> CScale(CAbs2(c), out.biased[k])]
             s2 == Lev(rs, p)
-        IN  /\ s2.A = sol[p].A
-            /\ s2.ref = sol[p].ref
-            /\ s2.P = RMul(CAbs2(c), sol[p].P)
+        IN  /\ CSeqEqOrOvf(s2.A, sol[p].A)
+            /\ CSeqEqOrOvf(s2.ref, sol[p].ref)
+            /\ REqOrOvf(s2.P, RMul(CAbs2(c), sol[p].P))
 
 Nested ==
     Solved => \A p \in 2..(NN - 1) : SubSeq(sol[p].ref, 1, p - 1) = sol[p - 1].ref
